@@ -176,6 +176,10 @@ def confirm(c, outs):
         if sorted(got) != sorted(phrases): return True, f'{prof}: {text!r}: described {got}, phrases used {phrases}'
     return False, 'real build agrees'
 
+def validate(tier, seed, report):
+    from props import exprlib
+    return exprlib.validate_pipeline(seed, 60 if tier == 'quick' else 300)
+
 def known_match(k, c): return True
 
 if __name__ == '__main__':
